@@ -264,8 +264,8 @@ def run():
         fl = [r for rs in pool.imap_unordered(gen_float, [(ctx.seed * 1000 + i, nf // 16) for i in range(16)]) for r in rs]
     bad += core.validate_records(ctx, 'ExtremaRec', fl, name='ExtremaRec-float')
     ex = gen(([(0, 1, -1, 1, 0, 0, 1, -1)], True))
-    ctx.sample([r for r in ex if r['kind'] == 'pad' and r['pw'] == 2 and r['parab'] == 1][0])
-    ctx.sample([r for r in ex if r['kind'] == 'env' and r['pw'] == 1 and r['parab'] == 0 and r['method'] == 'pchip'][0])
+    ctx.sample_first([r for r in ex if r['kind'] == 'pad' and r['pw'] == 2 and r['parab'] == 1])
+    ctx.sample_first([r for r in ex if r['kind'] == 'env' and r['pw'] == 1 and r['parab'] == 0 and r['method'] == 'pchip'])
     ctx.cov['exhaustive'] = True
     ctx.cov['rule'] = ('every sequence of length 3..%d over {-1,0,1} x pad_width 0..5 x {peaks,troughs,abs_peaks} x parabolic on/off through '
                        'get_padded_extrema; envelopes (3 interpolants x upper/lower/combined x pad 1..5 x parabolic) for length <= %d; plus %d random '
